@@ -464,7 +464,8 @@ class Lifter:
         f = {ast.Add: lambda x, y: x + y, ast.Sub: lambda x, y: x - y,
              ast.Mult: lambda x, y: x * y, ast.Div: lambda x, y: x / y,
              ast.Pow: lambda x, y: x ** y,
-             ast.FloorDiv: _floordiv}.get(type(op))
+             ast.FloorDiv: _floordiv,
+             ast.Mod: lambda x, y: sp.Mod(x, y)}.get(type(op))
         if f is None:
             raise Unsupported('operator %s' % type(op).__name__)
         if isinstance(a, Slots) and isinstance(b, Slots):
